@@ -24,37 +24,26 @@ except ImportError:
 
 
 def structural():
-    """flag validation and normalisation are functions of the constructor arguments alone: the element classes keep no
-    mutable state at class level (no memo of earlier validations shared between instances or between Option and
-    CommandOption) -- decided on the AST"""
-    import ast
-    from pyvc import frontend
+    """flag validation and normalisation are functions of the constructor arguments alone: the modules of the format
+    elements keep no module- or class-level object that any of their code mutates or re-binds (no memo of earlier
+    validations shared between instances or between Option and CommandOption) -- decided on the AST"""
+    from pyvc import frontend, structural as st
     P = frontend.Program()
     bad = []
     n = 0
-    for mod, cname in (("clikit.api.args.format.abstract_option", "AbstractOption"), ("clikit.api.args.format.option", "Option"),
-                       ("clikit.api.args.format.command_option", "CommandOption"), ("clikit.api.args.format.argument", "Argument")):
+    for mod in ("clikit.api.args.format.abstract_option", "clikit.api.args.format.option",
+                "clikit.api.args.format.command_option", "clikit.api.args.format.argument"):
         try:
-            ci = P.module(mod).classes[cname]
+            mi = P.module(mod)
         except Exception as e:  # noqa
-            bad.append("%s: %r" % (cname, e))
+            bad.append("%s: %r" % (mod, e))
             continue
         n += 1
-        for name, expr in ci.consts.items():
-            for x in ast.walk(expr):
-                if isinstance(x, (ast.Call, ast.List, ast.Dict, ast.Set, ast.ListComp, ast.DictComp, ast.SetComp)):
-                    bad.append("%s.%s is a mutable class-level object (%s)" % (cname, name, ast.unparse(expr)[:40]))
-                    break
-        for v in sorted(getattr(ci, "classvars", ())):
-            bad.append("%s.%s is re-assigned through the class" % (cname, v))
-        for m, fn in ci.methods.items():
-            for x in ast.walk(fn):
-                if isinstance(x, (ast.Global, ast.Nonlocal)):
-                    bad.append("%s.%s declares %s" % (cname, m, ", ".join(x.names)))
+        bad += ["%s: %s" % (mod.rsplit(".", 1)[1], f) for f in st.shared_mutable_state(mi)]
     return [{
         "name": "C07.format_elements.frame.no_class_level_state", "kind": "frame",
-        "text": "AbstractOption, Option, CommandOption and Argument have only immutable class-level constants and no method "
-                "re-assigns a class attribute or declares a global: a constructor call cannot depend on earlier ones",
+        "text": "the modules of AbstractOption, Option, CommandOption and Argument hold no module- or class-level object that their "
+                "code mutates or re-binds, and declare no global: a constructor call cannot depend on earlier ones",
         "status": "proved" if not bad else "failed",
-        "note": "; ".join(bad[:6]) if bad else "%d classes scanned" % n,
+        "note": "; ".join(bad[:6]) if bad else "%d modules scanned" % n,
     }]
